@@ -128,6 +128,29 @@ def _attach_cov(sv, covf, k=0):
         sv.cov.frame = OTHER_FRAME[sv.frame.name]
 
 
+_JPL = []
+
+
+def _jpl_frames():
+    """create the JPL frames once per process from the kernels shipped with the repository's tests (False when absent)"""
+    if not _JPL:
+        try:
+            import beyond
+            from pathlib import Path
+            from beyond.config import config
+            from beyond.env import jpl
+            d = Path(beyond.__file__).resolve().parent.parent / "tests" / "data" / "jpl"
+            files = [d / "de403_2000-2020.bsp", d / "pck00010.tpc", d / "gm_de431.tpc"]
+            if not all(f.exists() for f in files):
+                raise FileNotFoundError(d)
+            config.set("env", "jpl", "files", [str(f) for f in files])
+            jpl.create_frames()
+            _JPL.append(True)
+        except Exception:  # noqa
+            _JPL.append(False)
+    return _JPL[0]
+
+
 # --------------------------------------------------------------------------- OPM
 def opm_group(fmt_fixed, kep_fixed, tier="quick"):
     from beyond.io import ccsds
@@ -136,11 +159,16 @@ def opm_group(fmt_fixed, kep_fixed, tier="quick"):
 
     def body():
         fmt = fmt_fixed
-        ctx = choice("context", 3)                      # (time scale, frame) vary together
-        scale, frame = SCALES[ctx], FRAMES[ctx]
+        nctx = 4 if _jpl_frames() else 3
+        ctx = choice("context", nctx)                   # (time scale, frame) vary together
+        # the fourth context is a frame centred on another body (JPL kernels of the repository's test data, when present):
+        # such messages name the centre and a reference frame separately
+        scale, frame = (SCALES + ["TT"])[ctx], (FRAMES + ["MarsBarycenter"])[ctx]
         # the XML reader has one branch for a single USER_DEFINED entry, one for the second (list creation) and one for the
         # third and later ones (append): 3 entries go through all of them
-        if tier == "quick":                              # quick: 3 covariance frames, 0 or 3 user-defined parameters
+        if ctx == 3:                                     # body-centred frame: no covariance, no user-defined parameter
+            covf, ud = None, 0
+        elif tier == "quick":                            # quick: 3 covariance frames, 0 or 3 user-defined parameters
             covf = COV_FRAMES[choice("cov", 4)]
             ud = 3 * choice("user_defined", 2)
         else:
